@@ -87,6 +87,7 @@ type c12Handle struct {
 	HasDyn   bool    `json:"has_dyn"`
 	DynNil   bool    `json:"dyn_nil"` // the callback returns no filter for the table
 	Continue bool    `json:"continue"`
+	DynFirst bool    `json:"dyn_first,omitempty"` // WithDynamicLimit(...).WithShardLimit(...) instead of the other order
 }
 
 func (h c12Handle) enc() interface{} {
@@ -107,7 +108,8 @@ func (h c12Handle) enc() interface{} {
 func (h c12Handle) open(base *sqlgen.DB) (*sqlgen.DB, error) {
 	db := base
 	var err error
-	if h.Shard != nil {
+	// the two limits in either order of derivation
+	if h.Shard != nil && !h.DynFirst {
 		if db, err = db.WithShardLimit(c12Filter(h.Shard)); err != nil {
 			return nil, err
 		}
@@ -122,6 +124,11 @@ func (h c12Handle) open(base *sqlgen.DB) (*sqlgen.DB, error) {
 			GetLimitFilter:        func(context.Context, string) sqlgen.Filter { return f },
 			ShouldContinueOnError: func(error, string) bool { return cont },
 		}); err != nil {
+			return nil, err
+		}
+	}
+	if h.Shard != nil && h.DynFirst {
+		if db, err = db.WithShardLimit(c12Filter(h.Shard)); err != nil {
 			return nil, err
 		}
 	}
@@ -147,6 +154,11 @@ var c12Wheres = []struct {
 	{"n = ? OR n = ?", []interface{}{int64(10), int64(20)}},
 	{"id = ? AND n = ? OR id = ?", []interface{}{int64(1), int64(10), int64(2)}},
 	{"(n = ? OR id = ?) AND n IN (?, ?)", []interface{}{int64(0), int64(3), int64(0), int64(10)}},
+	// other spellings of a top-level disjunction
+	{"n = ? or n = ?", []interface{}{int64(10), int64(20)}},
+	{"id = ? AND n = ? Or id = ?", []interface{}{int64(1), int64(10), int64(2)}},
+	{"n = ?\nOR\tn = ?", []interface{}{int64(10), int64(20)}},
+	{"n = ? || id = ?", []interface{}{int64(10), int64(2)}},
 }
 
 func (cl c12Call) options() *sqlgen.SelectOptions {
@@ -207,10 +219,10 @@ func (cl c12Call) enc() interface{} {
 
 // c12Parsed is a received statement in the model's vocabulary: kind and (column, value) lists.
 type c12Parsed struct {
-	Kind     string
-	Where    [][]string // OR-branches of "col=value"
-	Rows     [][]string
-	Set      []string
+	Kind  string
+	Where [][]string // OR-branches of "col=value"
+	Rows  [][]string
+	Set   []string
 }
 
 func c12Val2Str(v interface{}) string {
@@ -715,6 +727,7 @@ func c12GenHandle(r *Rand) c12Handle {
 	case 4:
 		h.Shard = []c12KV{{"org", c12Val{Nil: true}}}
 	}
+	h.DynFirst = r.Bool()
 	if r.Chance(0.4) {
 		h.HasDyn = true
 		h.DynNil = r.Chance(0.2)
